@@ -25,8 +25,11 @@ import (
 )
 
 const (
-	// Maximum number of symlinks in a path.
-	slCountMax = 64
+	// Maximum number of symlinks in a path (as MAXSYMLINKS of the Linux kernel).
+	slCountMax = 40
+
+	// Maximum number of symlinks followed by EvalSymlinks (as path/filepath).
+	slCountMaxEval = 255
 
 	// Maximum size of a file (1 TiB), larger sizes and offsets are rejected as invalid arguments.
 	maxFileSize = 1 << 40
@@ -147,6 +150,7 @@ const (
 	slmLstat slMode = iota + 1 // slmLstat makes searchNode function follow symbolic links like Lstat.
 	slmStat                    // slmStat makes searchNode function follow symbolic links like Stat.
 	slmEval                    // slmEval makes searchNode function follow symbolic links like EvalSymlink.
+	slmLinks                   // slmLinks is slmEval with the larger link budget of EvalSymlinks.
 )
 
 // MemInfo is the implementation of fs.DirEntry (returned by ReadDir) and fs.FileInfo (returned by Stat and Lstat).
